@@ -84,6 +84,8 @@ def apply(cur_tree, ref_tree, prepare):
     new_helpers = _helper_table(cur, [q for q in cur if q not in ref])
     gone_helpers = _helper_table(ref, [q for q in ref if q not in cur])
     gated = []
+    cur_consts = equiv.module_constants(cur_tree)
+    ref_consts = equiv.module_constants(ref_tree)
     for q, (f, body_list, cls) in cur.items():
         if q not in ref:
             continue
@@ -92,10 +94,13 @@ def apply(cur_tree, ref_tree, prepare):
             continue
         if [ast.dump(d) for d in f.decorator_list] != [ast.dump(d) for d in rf.decorator_list]:
             continue
-        c1 = equiv.canonical(f, new_helpers)
+        cls_r = ref[q][2]
+        s1 = equiv.sized_chains(list(cls.body) if cls is not None else []) | {c for c in equiv.sized_chains([f]) if c[0] != 'self'}
+        s2 = equiv.sized_chains(list(cls_r.body) if cls_r is not None else []) | {c for c in equiv.sized_chains([rf]) if c[0] != 'self'}
+        c1 = equiv.canonical(f, new_helpers, cur_consts, s1)
         if c1 is None:
             continue
-        c2 = equiv.canonical(rf, gone_helpers)
+        c2 = equiv.canonical(rf, gone_helpers, ref_consts, s2)
         if c2 is None or c1 != c2:
             continue
         new_body = copy.deepcopy(rf.body)
